@@ -118,6 +118,7 @@ func checkC18(r *Run) {
 		defer os.RemoveAll(dir)
 		var mu sync.Mutex
 		digests := map[string]string{} // hashed path -> digest
+		firstBytes := map[string][]byte{}
 		digestsNoMap := map[string]string{} // hashed path -> digest of the bytes before the trailing source map comment
 		origin := map[string]string{}
 		type variant struct {
@@ -199,7 +200,7 @@ func checkC18(r *Run) {
 				mu.Lock()
 				// the same bytes up to the trailing sourceMappingURL comment (or inline map): the recorded "comment appended
 				// after hashing" finding, whatever edit separates the two builds (the file is one the edit does not reach)
-				noMap := c
+				noMap := append([]byte("\n"), c...) // (a chunk may consist of nothing but the comment)
 				for _, tag := range []string{"\n//# sourceMappingURL=", "\n/*# sourceMappingURL="} {
 					if k := bytes.LastIndex(noMap, []byte(tag)); k >= 0 {
 						noMap = noMap[:k]
@@ -217,10 +218,17 @@ func checkC18(r *Run) {
 				} else if old, ok := digests[rel]; ok && old != d && digestsNoMap[rel] == dNM && c18IsSourceMapVariant(origin[rel]) && c18IsSourceMapVariant(label) {
 					viol("same-name-different-content:sourcemap-comment-appended-after-hashing:"+path.Ext(rel), fmt.Sprintf("%s is emitted with and without the trailing source map comment by two builds of this project (first by %s)", rel, origin[rel]), map[string]interface{}{"path": rel, "first_build": origin[rel]})
 				} else if old, ok := digests[rel]; ok && old != d {
+					if dbg := os.Getenv("VERIF_C18_DEBUG"); dbg != "" {
+						os.WriteFile(filepath.Join(dbg, strings.ReplaceAll(rel, "/", "_")+".second"), c, 0o644)
+						os.WriteFile(filepath.Join(dbg, strings.ReplaceAll(rel, "/", "_")+".first"), firstBytes[rel], 0o644)
+					}
 					viol("same-name-different-content:"+c18ConflictClass(origin[rel], label, path.Ext(rel)), fmt.Sprintf("%s is emitted with different bytes by two builds of this project (first by %s)", rel, origin[rel]), map[string]interface{}{"path": rel, "first_build": origin[rel]})
 				} else if !ok {
 					digests[rel] = d
 					digestsNoMap[rel] = dNM
+					if os.Getenv("VERIF_C18_DEBUG") != "" {
+						firstBytes[rel] = append([]byte{}, c...)
+					}
 					origin[rel] = label
 					atomic.AddInt64(&hashedPaths, 1)
 				}
